@@ -14,7 +14,13 @@ import (
 	"time"
 )
 
-const VerifRoot = "/verif"
+// VerifRoot is the framework directory (bin/check exports VERIF_ROOT: the directory it lives in).
+var VerifRoot = func() string {
+	if v := os.Getenv("VERIF_ROOT"); v != "" {
+		return v
+	}
+	return "/verif"
+}()
 
 // Exit codes of a check.
 const (
